@@ -342,13 +342,36 @@ def _ax(p, key="axis"):
 
 
 # unary elementwise -------------------------------------------------------------
+def _ufunc_kw(p, kw):
+    """where= / dtype= options of the ufunc-style spellings"""
+    k = dict(kw)
+    if p.get("where") is not None:
+        k["where"] = np.array(p["where"], dtype=bool).reshape(p["wshape"])
+    if p.get("dtype") is not None:
+        k["dtype"] = p["dtype"]
+    return k
+
+
+def _ufunc_post(out, args, p):
+    """reference semantics of where= (unselected outputs are unspecified: modelled as 0, and excluded from value
+    comparison) and dtype= (the computation and result are carried out in that dtype)"""
+    out = np.asarray(out)
+    if p.get("where") is not None:
+        mask = np.array(p["where"], dtype=bool).reshape(p["wshape"])
+        shape = np.broadcast_shapes(out.shape, mask.shape)
+        out = np.where(np.broadcast_to(mask, shape), np.broadcast_to(out, shape), 0.0)
+    if p.get("dtype") is not None and not np.iscomplexobj(out):
+        out = out.astype(p["dtype"])
+    return out
+
+
 def _u(name, reff, dom="any", mgname=None):
     mgname = mgname or name
     _reg(
         name,
         1,
-        lambda mg, a, p, kw, _n=mgname: getattr(mg, _n)(a[0], **kw),
-        lambda a, p, _f=reff: _f(a[0]),
+        lambda mg, a, p, kw, _n=mgname: getattr(mg, _n)(a[0], **_ufunc_kw(p, kw)),
+        lambda a, p, _f=reff: _ufunc_post(_f(a[0]), a, p),
         [dom],
     )
 
@@ -445,8 +468,8 @@ def _b(name, reff, dom=("any", "any")):
     _reg(
         name,
         2,
-        lambda mg, a, p, kw, _n=name: getattr(mg, _n)(a[0], a[1], **kw),
-        lambda a, p, _f=reff: _f(a[0], a[1]),
+        lambda mg, a, p, kw, _n=name: getattr(mg, _n)(a[0], a[1], **_ufunc_kw(p, kw)),
+        lambda a, p, _f=reff: _ufunc_post(_f(a[0], a[1]), a, p),
         list(dom),
     )
 
@@ -800,3 +823,10 @@ _reg(
     lambda mg, a, p, kw: mg.add(a[0], a[1], dtype=p["dtype"], **kw),
     lambda a, p: np.add(a[0], a[1], dtype=p["dtype"]),
 )
+
+
+# names that are genuine ufunc spellings (accept where= / dtype=)
+UFUNC_NAMES = {"absolute", "abs", "add", "arccos", "arccosh", "arcsin", "arcsinh", "arctan", "arctan2", "arctanh", "cbrt",
+               "cos", "cosh", "divide", "exp", "exp2", "expm1", "log", "log10", "log1p", "log2", "logaddexp", "logaddexp2",
+               "maximum", "minimum", "multiply", "negative", "positive", "power", "reciprocal", "sin", "sinh", "sqrt",
+               "square", "subtract", "tan", "tanh"}
